@@ -1,7 +1,162 @@
-//! TLS matrix and the `ipputil` binary: added per property.
-use crate::exec::CaseResult;
-use crate::text::SExp;
+//! The `ipputil` binary against the scripted loopback printer (C18); the TLS matrix is in tls.rs.
+use std::io::Write;
+use std::process::{Command, Stdio};
 
-pub fn exec9(_prop: &str, _op: &str, _line: &str, _args: &[SExp]) -> Option<CaseResult> {
-    None
+use ipp::prelude::*;
+
+use crate::exec::*;
+use crate::httpd::*;
+use crate::text::*;
+
+fn badarg(line: &str, why: &str) -> CaseResult {
+    CaseResult { line: line.to_string(), result: format!("(bad-arg {})", why), oracle: None, class: "bad-arg".into() }
+}
+
+pub fn exec9(prop: &str, op: &str, line: &str, args: &[SExp]) -> Option<CaseResult> {
+    Some(match op {
+        "cli" => op_cli(line, args),
+        _ => return crate::tls::exec_tls(prop, op, line, args),
+    })
+}
+
+fn hexs(e: Option<&SExp>) -> Option<String> {
+    String::from_utf8(unhex(e?.atom()?)?).ok()
+}
+
+/// `cli (args (n 0|1) (f 0|1) (j HEX)? (u HEX)? (o HEX)*) DOCHEX (answers (http)|MSG …)`
+fn op_cli(line: &str, args: &[SExp]) -> CaseResult {
+    let bin = match std::env::var("IPPUTIL_BIN") {
+        Ok(b) => b,
+        Err(_) => return badarg(line, "IPPUTIL_BIN-not-set"),
+    };
+    let al = match args.first().and_then(|a| a.list()) {
+        Some(l) if l.first().and_then(|x| x.atom()) == Some("args") => &l[1..],
+        _ => return badarg(line, "args"),
+    };
+    let doc = match args.get(1).and_then(|a| a.atom()).and_then(unhex) {
+        Some(d) => d,
+        None => return badarg(line, "doc"),
+    };
+    let answers = match args.get(2).and_then(|a| a.list()) {
+        Some(l) if l.first().and_then(|x| x.atom()) == Some("answers") => &l[1..],
+        _ => return badarg(line, "answers"),
+    };
+    let mut replies: Vec<Reply> = vec![];
+    for a in answers {
+        if a.list().map(|l| l.len() == 1 && l[0].atom() == Some("http")).unwrap_or(false) {
+            let mut r = Reply::ok(b"nope".to_vec());
+            r.status = 500;
+            replies.push(r);
+        } else {
+            let m = match read_msg(a) {
+                Some(m) => m,
+                None => return badarg(line, "answer"),
+            };
+            let resp = match build(&m) {
+                Some(r) => r,
+                None => return badarg(line, "answer-group"),
+            };
+            let mut r = Reply::ok(resp.to_bytes().to_vec());
+            r.fragments = vec![9, 4];
+            replies.push(r);
+        }
+    }
+    let mut no_check = false;
+    let mut use_file = false;
+    let mut cmd_args: Vec<String> = vec!["print".into()];
+    for e in al {
+        let l = match e.list() {
+            Some(l) if l.len() == 2 => l,
+            _ => return badarg(line, "arg"),
+        };
+        match l[0].atom().unwrap_or("") {
+            "n" => no_check = l[1].atom() == Some("1"),
+            "f" => use_file = l[1].atom() == Some("1"),
+            "j" => {
+                cmd_args.push("-j".into());
+                cmd_args.push(match hexs(Some(&l[1])) { Some(s) => s, None => return badarg(line, "j") });
+            }
+            "u" => {
+                cmd_args.push("-u".into());
+                cmd_args.push(match hexs(Some(&l[1])) { Some(s) => s, None => return badarg(line, "u") });
+            }
+            "o" => {
+                cmd_args.push("-o".into());
+                cmd_args.push(match hexs(Some(&l[1])) { Some(s) => s, None => return badarg(line, "o") });
+            }
+            _ => return badarg(line, "arg-kind"),
+        }
+    }
+    if no_check {
+        cmd_args.push("-n".into());
+    }
+    let server = Server::start(replies);
+    let uri_text = format!("http://127.0.0.1:{}/printers/q1", server.port);
+    let uri: Uri = uri_text.parse().unwrap();
+    let tmp = std::env::temp_dir().join(format!("ippverif-doc-{}-{}", std::process::id(), server.port));
+    if use_file {
+        if std::fs::write(&tmp, &doc).is_err() {
+            server.finish();
+            return badarg(line, "tmpfile");
+        }
+        cmd_args.push("-f".into());
+        cmd_args.push(tmp.to_string_lossy().to_string());
+    }
+    cmd_args.push(uri_text.clone());
+    let child = Command::new(&bin).args(&cmd_args).stdin(Stdio::piped()).stdout(Stdio::piped()).stderr(Stdio::piped()).spawn();
+    let mut child = match child {
+        Ok(c) => c,
+        Err(e) => {
+            server.finish();
+            return badarg(line, &format!("spawn-{}", e));
+        }
+    };
+    {
+        let mut stdin = child.stdin.take().unwrap();
+        if !use_file {
+            let d = doc.clone();
+            // write from a thread: the child may exit before reading everything
+            std::thread::spawn(move || {
+                let _ = stdin.write_all(&d);
+            });
+        }
+    }
+    let out = child.wait_with_output();
+    let caps = server.finish();
+    if use_file {
+        let _ = std::fs::remove_file(&tmp);
+    }
+    let code = match &out {
+        Ok(o) => o.status.code().unwrap_or(-1),
+        Err(_) => -2,
+    };
+    let mut reqs: Vec<String> = vec![];
+    let mut oracle = None;
+    for c in &caps {
+        match parse_flat(&c.body) {
+            Ok((h, a, rest)) => {
+                let (m, _) = unbuild(&h, &a, false);
+                reqs.push(format!("({} payload={})", show_msg(&m), hex(&rest)));
+                // direct oracle: the document bytes arrive unchanged with the Print-Job request
+                if h.operation_or_status == Operation::PrintJob as u16 && rest != doc {
+                    oracle = Some(format!("the Print-Job request carries {} document bytes, the input has {}", rest.len(), doc.len()));
+                }
+            }
+            Err(e) => reqs.push(format!("(unparsable {})", show_parse_err(&e))),
+        }
+        if c.method != "POST" {
+            oracle = Some("not a POST".into());
+        }
+    }
+    let comps = crate::exec3::components(&uri);
+    let base = match line.find(" (c ") {
+        Some(i) => &line[..i],
+        None => line,
+    };
+    CaseResult {
+        line: format!("{} {}", base, comps),
+        result: format!("exit={} reqs=({})", code, reqs.join(" ")),
+        oracle,
+        class: format!("exit{}-reqs{}", code, caps.len()),
+    }
 }
